@@ -24,6 +24,12 @@ def is_hash_container(body, e):
     return any(h in t for h in HASH) and not t.startswith("std::option") and "Iter" not in t and "Drain" not in t and "Keys" not in t
 
 
+def is_set_container(body, e):
+    """a set / map used for membership (hash or ordered)"""
+    t = expr_type(body, e)
+    return any(h in t for h in HASH + ("BTreeSet", "BTreeMap")) and not t.startswith("std::option") and "Iter" not in t and "Drain" not in t and "Keys" not in t
+
+
 def set_id(e):
     """identity of a collection value: its creation site (two HashSet::new() calls are two sets)"""
     return strip_load(e)
@@ -43,6 +49,14 @@ def shallow(e):
 
 def uses_directly(e, pred):
     return any(pred(x) for x in shallow(e))
+
+
+def is_pop_none_fact(f):
+    """the traversal's work list ran empty (`while let Some(x) = queue.pop_front()` left)"""
+    if f[0] == "in" and f[2] == frozenset(["None"]) and strip_load(f[1])[0] == "discr":
+        pc = strip_load(strip_load(f[1])[1])
+        return pc[0] == "call" and pc[1].split("::")[-1] in ("pop", "pop_front", "pop_back", "pop_first", "pop_last") and len(pc[2]) == 1
+    return False
 
 
 # ---------------------------------------------------------------- SL1 / SL2
@@ -66,7 +80,21 @@ def sl12(F, R):
     inserts = [e for e in calls if e.name in ("insert", "push", "push_back") and e.args and set_id(e.args[0]) == W]
     in_loop = [e for e in inserts if any(is_iter_next_fact(f) for f in e.facts)]
     seeds = [e for e in inserts if e not in in_loop]
-    if not seeds or not any(strip_load(e.args[1]) == ("param", 2) for e in seeds):
+    # the work list may also be created already holding the start vertex: HashSet::from([v]), vec![v], VecDeque::from([v])
+    def created_with_start(w):
+        w = strip_load(w)
+        if w[0] == "call" and w[1].split("::")[-1] in ("from", "from_iter") and w[2]:
+            arr = strip_load(w[2][0])
+            for _ in range(3):
+                if arr[0] == "cast":
+                    arr = strip_load(arr[2])
+                elif arr[0] == "iter":
+                    arr = strip_load(arr[1])
+            return arr[0] == "array" and len(arr[1]) == 1 and strip_load(arr[1][0]) == ("param", 2)
+        return False
+    if created_with_start(W):
+        pass
+    elif not seeds or not any(strip_load(e.args[1]) == ("param", 2) for e in seeds):
         R.bad("SL1", "SL1/Sodg::slice_some/not-seeded-with-start", b.where(), "the closure is not seeded with the start vertex")
     R.floor("SL1", "enqueue sites inside the closure loop", len(in_loop), 1, b.where())
     for e in in_loop:
@@ -78,14 +106,14 @@ def sl12(F, R):
         for f in e.facts:
             if f[0] == "bool" and f[2] is False:
                 ce = strip_load(f[1])
-                if ce[0] == "call" and ce[1].split("::")[-1] == "contains" and is_hash_container(b, ce[2][0]) and set_id(ce[2][0]) != W and \
+                if ce[0] == "call" and ce[1].split("::")[-1] == "contains" and is_set_container(b, ce[2][0]) and set_id(ce[2][0]) != W and \
                         strip_sites(strip_load(ce[2][1])) == strip_sites(strip_load(x)):
                     g = f
                     D = set_id(ce[2][0])
             if f[0] == "bool" and f[2] is True:
                 # `if visited.insert(x)` : test and mark in one step
                 ce = strip_load(f[1])
-                if ce[0] == "call" and ce[1].split("::")[-1] == "insert" and is_hash_container(b, ce[2][0]) and set_id(ce[2][0]) != W and \
+                if ce[0] == "call" and ce[1].split("::")[-1] == "insert" and is_set_container(b, ce[2][0]) and set_id(ce[2][0]) != W and \
                         strip_sites(strip_load(ce[2][1])) == strip_sites(strip_load(x)):
                     g = f
                     D = set_id(ce[2][0])
@@ -142,7 +170,7 @@ def sl12(F, R):
     # a vertex other than the one being processed is recorded as visited only once the predicate accepted the edge to it:
     # otherwise a vertex first met through a rejected edge is never reconsidered
     for m in calls:
-        if m.name != "insert" or not m.args or not is_hash_container(b, m.args[0]) or set_id(m.args[0]) == W:
+        if m.name != "insert" or not m.args or not is_set_container(b, m.args[0]) or set_id(m.args[0]) == W:
             continue
         xs = strip_load(m.args[1])
         if not (xs[0] == "field" and xs[2] == "(tuple)::1" and strip_load(xs[1])[0] == "item" and
@@ -255,9 +283,14 @@ def sl3456(F, R):
         for f in e.facts:
             if is_iter_next_fact(f) or is_isempty_fact(f) or "Level" in repr(f):
                 continue
+            # the traversal's work list ran empty (`while let Some(x) = queue.pop_front()` left): loop protocol as well
+            if f[0] == "in" and f[2] == frozenset(["None"]) and strip_load(f[1])[0] == "discr":
+                pc = strip_load(strip_load(f[1])[1])
+                if pc[0] == "call" and pc[1].split("::")[-1] in ("pop", "pop_front", "pop_back", "pop_first", "pop_last") and len(pc[2]) == 1:
+                    continue
             if f[0] == "bool" and f[2] is True:
                 ce = strip_load(f[1])
-                if ce[0] == "call" and ce[1].split("::")[-1] == "contains" and is_hash_container(b, ce[2][0]):
+                if ce[0] == "call" and ce[1].split("::")[-1] == "contains" and is_set_container(b, ce[2][0]):
                     a = strip_sites(strip_load(ce[2][1]))
                     if a == strip_sites(v2):
                         member["v2"] = True
@@ -299,7 +332,7 @@ def sl3456(F, R):
                 for a in adds:
                     if strip_sites(strip_load(a.args[1])) != strip_sites(v) or not b.reaches(a.site, e.site):
                         continue
-                    ex = [f for f in a.facts if not (is_iter_next_fact(f) or is_isempty_fact(f) or "Level" in repr(f) or
+                    ex = [f for f in a.facts if not (is_iter_next_fact(f) or is_isempty_fact(f) or "Level" in repr(f) or is_pop_none_fact(f) or
                                                       (f[0] == "bool" and f[2] is True and strip_load(f[1])[0] == "call" and
                                                        strip_load(f[1])[1].split("::")[-1] == "contains"))]
                     if not ex:
